@@ -61,8 +61,8 @@ MAP = {
 }
 
 MUTATORS = [
-    (r"(?<![<>=!\-+*/&|])<(?![<=])", ["<="]), (r"(?<![<>=!])<=", ["<"]),
-    (r"(?<![<>=!\-])>(?![>=])", [">="]), (r"(?<![<>=!])>=", [">"]),
+    (r"(?<= )<(?= )", ["<="]), (r"(?<= )<=(?= )", ["<"]),          # spaces required: leaves template brackets alone
+    (r"(?<= )>(?= )", [">="]), (r"(?<= )>=(?= )", [">"]),
     (r"==", ["!="]), (r"!=", ["=="]),
     (r"&&", ["||"]), (r"\|\|", ["&&"]),
     (r"(?<![+\-])\+(?![+=])", ["-"]), (r"(?<![\-+>])-(?![\-=>])", ["+"]),
